@@ -267,7 +267,7 @@ def run_unit(name, tier):
     return out
 
 
-def write_evidence(pid, tier, seed, t0, units, kani, violations, known, undecided, samples):
+def write_evidence(pid, tier, seed, t0, units, kani, violations, known, undecided, samples, sweeps=()):
     obligations = []
     for u in units:
         obligations += u["obligations"]
@@ -308,6 +308,8 @@ def write_evidence(pid, tier, seed, t0, units, kani, violations, known, undecide
         "extracted_spans": [e for u in units for e in u["extracted"]],
         "assumption_scan": {u["unit"]: u.get("assumption_scan") for u in units},
         "samples": samples[:12],
+        "witness_sweep": [{"unit": w["unit"], "inputs_executed_on_real_compiler": w["executed"], "disagreements": len(w["failing"]),
+                           "wall_s": w.get("wall_s"), "what": w.get("what", ""), "counted_as_proof": False} for w in sweeps],
         "not_covered": spec.get("not_covered", ""),
         "evaluations": len(obligations),
         "distinct_nontrivial": len({o["name"] for o in obligations}),
@@ -335,7 +337,24 @@ def check_property(pid, tier, seed):
     if tier == "thorough" and spec.get("kani"):
         import kani_real
         kani = kani_real.run_harness_sets(spec["kani"])
+    # thorough tier: witness sweep -- the units' witness templates are instantiated over a stated grid and EXECUTED on the real compiler
+    # built from the working tree (and on SQLite where results matter).  This validates the assumed contracts / shims and the oracles by
+    # execution; it is never counted as proof.  A disagreement is reported under the obligation the witness belongs to.
+    sweeps = []
+    if tier == "thorough" and not os.environ.get("VERIF_NO_REPLAY"):
+        for n in unit_names:
+            mod = sys.modules.get(n) or __import__(n)
+            if hasattr(mod, "sweep"):
+                t1 = time.time()
+                try:
+                    recs = mod.sweep()
+                except Exception as e:
+                    sweeps.append({"unit": n, "error": repr(e), "executed": 0, "failing": []})
+                    continue
+                sweeps.append({"unit": n, "executed": len(recs), "failing": [r for r in recs if r.get("failing")], "wall_s": round(time.time() - t1, 1),
+                               "what": getattr(mod, "SWEEP_DOC", "")})
     undecided = [u["unit"] + ": " + u["undecided"] for u in units if u["undecided"]]
+    undecided += ["%s: witness sweep crashed: %s" % (w["unit"], w["error"]) for w in sweeps if w.get("error")]
     undecided += [k["name"] + ": " + k["undecided"] for k in kani if k.get("undecided")]
     # failures relevant to this property
     fails = []
@@ -349,6 +368,13 @@ def check_property(pid, tier, seed):
             u["obligations"] = [o for o in u["obligations"] if sel(o["name"])]
     for k in kani:
         fails += k.get("failures", [])
+    for w in sweeps:
+        sel = spec.get("select", {}).get(w["unit"])
+        for rec in w["failing"]:
+            if sel is None or sel(rec["obligation"]):
+                fails.append({"obligation": rec["obligation"], "unit": w["unit"], "kind": "sweep", "label": rec["obligation"].split(".", 1)[1],
+                              "message": "executed witness disagrees with the contract's oracle", "text": str(rec.get("input"))[:200],
+                              "rendered": "", "concrete": rec})
     kf = findings.load()
     known, violations = [], []
     seen = set()
@@ -377,7 +403,7 @@ def check_property(pid, tier, seed):
         if not found:
             line += " no-failing-input-found"
         vio_lines.append(line)
-    ev = write_evidence(pid, tier, seed, t0, units, kani, violations, known, undecided, samples)
+    ev = write_evidence(pid, tier, seed, t0, units, kani, violations, known, undecided, samples, sweeps)
     for l in vio_lines:
         print(l)
     for f in violations:
